@@ -379,9 +379,46 @@ def fan_targets(index: RepoIndex, rep, rule: str) -> None:
               f'{ap}.ys[0]': S('ymin'), f'{ap}.ys[1]': S('ymax'), f'{ap}.xs[0]': S('xmin'),
               f'{ap}.xs[1]': S('xmax'), f'{pp}.yx[0]': S('py'), f'{pp}.yx[1]': S('px')}
 
+    from ..affine import Facts, prove_ge0
+    F = Facts()
+    for lo_, mid_, hi_ in (('ymin', 'py', 'ymax'), ('xmin', 'px', 'xmax')):
+        F.add_le(S(lo_), S(mid_))                  # the origin is in the area (C19.R2)
+        F.add_le(S(mid_), S(hi_))
+
+    def local_area(name: str):
+        """bounds of a local Area((a, b), (c, d)) (an area method read where it is called):
+        the constructor orders each pair, so a <= b must follow from the origin being in the
+        area for the pair to be read as written"""
+        d = w.single_def(name)
+        if d is None or d[0] != 'value':
+            return None
+        v = d[1]
+        if not (isinstance(v, ast.Call) and src(v.func) == 'Area' and len(v.args) == 2
+                and not v.keywords and all(isinstance(a, ast.Tuple) and len(a.elts) == 2
+                                           for a in v.args)):
+            return None
+        out = {}
+        for ax, pair in zip('yx', v.args):
+            try:
+                a0, b0 = (aff_of(x, leaf) for x in pair.elts)
+            except NonAffine:
+                return None
+            if not prove_ge0(b0 - a0, F):
+                return None
+            out[ax + 'min'], out[ax + 'max'] = a0, b0
+        out['height'] = out['ymax'] - out['ymin'] + 1
+        out['width'] = out['xmax'] - out['xmin'] + 1
+        return out
+
     def leaf(e: ast.AST):
         if isinstance(e, ast.Constant) and isinstance(e.value, float):
             return Aff.const(Fraction(e.value).limit_denominator(1000))
+        if isinstance(e, ast.Attribute) and isinstance(e.value, ast.Name) and \
+                e.value.id not in (pp, ap) and e.attr in ('ymin', 'ymax', 'xmin', 'xmax',
+                                                          'height', 'width'):
+            la = local_area(e.value.id)
+            if la is not None:
+                return la[e.attr]
         return leaves.get(src(e))
 
     def unit_vec(e: ast.AST, depth: int = 8):
